@@ -63,7 +63,12 @@ def formula_clause(model, rep, funcs):
         d = poly_degree(out)
         rep.ob("H", anchor, "score has homogeneity degree (0, 0): unchanged by positive rescaling of either input", d == (0, 0),
                f"degree {tuple(map(str, d)) if d else 'inhomogeneous'} of {out!r}"[:400], node=f.node, fn=f, clause="1 formulas", stmt=f"def {f.name} #degree")
-        ok, why, info = cs_form(out)
+        # fsc_landscape averages the per-shell quotient over the shells; an image-independent factor there (sum / count instead of mean) is validated by the
+        # shell-mean obligation below, not by the Cauchy-Schwarz form
+        ok, why, info = cs_form(out, scalar_ok=anchor.endswith("fsc_landscape"))
+        if anchor.endswith("fsc_landscape"):
+            from .generic import shell_mean_obligations
+            shell_mean_obligations(model, rep, f, "1 formulas")
         rep.ob("H", anchor, "score is in Cauchy-Schwarz form B(x,y)/sqrt(B(x,x) B(y,y)) with one bilinear reducer (=> |score| <= 1 and = 1 for identical inputs)",
                ok, why, node=f.node, fn=f, clause="1 formulas", stmt=f"def {f.name} #cs")
         if ok:
